@@ -123,7 +123,7 @@ package store
 //@ func (*Store).put
 //@   property C07 C15
 //@   noframe
-//@   havoc $Complete $CacheDropped $LinkGone $FdOpen $RmErr $CreateErr $Linked $AccOpen $ValidOK
+//@   havoc $Complete $CacheDropped $LinkGone $FdOpen $RmErr $CreateErr $Linked $AccOpen $ValidOK $StreamEnded
 //@   requires s != nil && roots != nil && !$Complete && !$FdOpen && $EmptyComplete
 //@   callpre Store).linkHeight: $arg1.IsEmptyEDS()
 //@   callpre Store).createODSQ4File: writeQ4 && $arg3 == height && $arg2 == roots && $arg1 == square
